@@ -109,6 +109,7 @@ class C03:
         r, idx = self.run_batch(get_ex("asan" if single else "fast"), ctx, lits)
         t = by_index(r.trace)
         keys, cc, fails = [], {}, []
+        crashed = False
         for lit, (ip, idd) in zip(lits, idx):
             cl = classify(ctx, lit)
             for c in cl:
@@ -118,6 +119,10 @@ class C03:
             sig, msg = self.judge(ctx, lit, t, ip, idd)
             if sig is None:
                 continue
+            if sig == "no-result" and not single:
+                if crashed:
+                    continue        # the child died earlier in this batch: only the first victim is re-run and reported
+                crashed = True
             if single:
                 if sig == "no-result":
                     sig = "die/%s" % r.death()
